@@ -23,7 +23,7 @@ def agg_for_local(body, local):
     return None
 
 
-def in_place_rules(facts, b, anchor, w1, w2, w3, w6):
+def in_place_rules(facts, b, anchor, w1, w2, w3, w6, w9):
     persists = b.find_calls(PERSIST)
     runs = b.find_calls(RUN)
     temps = b.find_calls(TEMPFILE_IN)
@@ -71,6 +71,21 @@ def in_place_rules(facts, b, anchor, w1, w2, w3, w6):
         w1.examined(("persist", b.bbs[p]["t"]["sp"]), True, {"persist_at": b.bbs[p]["t"]["sp"], "guarded_by_run": ok})
         if not ok:
             w1.violate("persist-unguarded", "the temporary file is renamed over the input although the run for that file may have failed or not happened: " + "; ".join(why or ["no dominating run"]), where=b.bbs[p]["t"]["sp"])
+
+    # ---- W18.9 a successful run is always followed by the rename
+    breaks = set()
+    for i_, t_ in b.calls():
+        tc_ = b.try_continue_edge(i_)
+        if tc_:
+            breaks.add(tc_[3])
+    for p, (r, srcs) in tmp_locals.items():
+        tc = b.try_continue_edge(r)
+        seen = b.reachable(tc[2][1], removed_nodes=[p], removed_edges=breaks, unwind=False)
+        skipped = [x for x in seen if b.bbs[x]["t"]["k"] == "Return"]
+        w9.examined(("replace-after-run", b.bbs[r]["t"]["sp"]), True, {"run_at": b.bbs[r]["t"]["sp"], "persist_at": b.bbs[p]["t"]["sp"], "success_paths_that_skip_the_rename": len(skipped)})
+        if skipped:
+            w9.violate("rename-skipped", "after a successful run the function can return without renaming the temporary file over the input (other than by propagating an error with `?`): "
+                       "e.g. a filter that yields no output leaves the file unchanged instead of emptying it", where=b.bbs[p]["t"]["sp"])
 
     # ---- W18.2 output goes to the temp file
     for p, (r, srcs) in tmp_locals.items():
@@ -177,7 +192,17 @@ def in_place_bodies(facts):
             continue
         m = inline_calls(facts, body, ["jaq"], depth=3, only=keep)
         b = Body(m)
-        if b.find_calls(PERSIST) and b.find_calls(TEMPFILE_IN) and b.find_calls(RUN):
+        def creates_temp():
+            if b.find_calls(TEMPFILE_IN):
+                return True
+            for bb_ in m["bbs"]:
+                for s_ in bb_["st"]:
+                    if s_.get("k") == "A" and s_["r"].get("k") == "Agg" and (s_["r"].get("ak") or "").startswith("Closure:"):
+                        cb_ = facts.mir_fn(s_["r"]["ak"][len("Closure:"):])
+                        if cb_ is not None and Body(cb_).find_calls(TEMPFILE_IN):
+                            return True
+            return False
+        if b.find_calls(PERSIST) and b.find_calls(RUN) and creates_temp():
             cands.append((len(m["bbs"]), m))
     cands.sort(key=lambda x: x[0])
     return [cands[0][1]] if cands else []
@@ -216,9 +241,11 @@ def run(facts, tier):
     w2 = Rule("W18.2", "inside the closure handed to that run every value is written to NamedTempFile::as_file_mut() of the captured temporary file (not to the input path, not to stdout)", floor=1)
     w3 = Rule("W18.3", "the temporary file is created in the parent directory of the input path and renamed to that same path (rename within one file system)", floor=3)
     w6 = Rule("W18.6", "the permission bits are read from the input path before the rename and re-applied to it after the rename, on every successful path", floor=2)
+    w9 = Rule("W18.9", "once the run for a file has succeeded, every path on which the function returns -- other than the propagation of an error with `?` -- passes through the rename of "
+              "the temporary file over the input: the replacement is not conditional on there having been output", floor=1)
     for mb in anchors:
-        in_place_rules(facts, Body(mb), mb["def"], w1, w2, w3, w6)
-    rules += [w1.finish(), w2.finish(), w3.finish(), w6.finish()]
+        in_place_rules(facts, Body(mb), mb["def"], w1, w2, w3, w6, w9)
+    rules += [w1.finish(), w2.finish(), w3.finish(), w6.finish(), w9.finish()]
     ANCHORS = {mb["def"] for mb in anchors} | {mb.get("root") for mb in anchors if mb.get("root")}
 
     # ---- W18.5 / W18.7 who-may-call inside the CLI crate
